@@ -1,17 +1,22 @@
 // Unit block_leaves (C03), Kani side: the leaf contract that the Verus chain units ASSUME
 // (trait `Block` in shared/chain_env.v.rs: ord_law, new/min/max/next/previous, clone) proved on
 // the compiled code for the four real implementors
-//     AsBlock, AsRange   (item Asn,  val = the wrapped u32)
+//     AsBlock, AsRange      (item Asn,  val = the wrapped u32)
 //     IpBlock, AddressRange (item Addr, val = the wrapped u128)
 // plus the canonical-form clauses of the property ("ranges that are prefixes are expressed as
 // prefixes, and only those", `AsBlock::new` is `Id` iff min == max), `Addr::to_min/to_max`,
-// `ipres::Prefix::{new,min,max,range}`, and the item counts `AsRange/AsBlock::asn_count`.
-// All harnesses are loop-free over full-domain scalar inputs, or contain one loop of fixed width
-// (129 prefix lengths / a fixed-size DER buffer) that is unwound completely with unwinding
-// assertions on: kind K.
+// `ipres::Prefix::{new,min,max,range}`, the item counts `AsRange/AsBlock::asn_count`, and the std
+// facts the Verus unit range_prefixes assumes (u128 bit counts, Ipv4Addr <-> u32).
+// Kind K harnesses are loop-free over full-domain scalar inputs, or contain one loop of fixed width
+// (129 prefix lengths) unwound completely with unwinding assertions on.
+// Kind Kb harnesses are bounded in their INPUT FAMILY (a fixed DER / text shape with symbolic octets,
+// or ranges confined to 4 low bits for the decomposition cross-checks); they are never counted as proofs.
 //
-// Harnesses marked FINDING below fail on the unchanged tree and expose genuine defects
-// (see the comments at each of them).
+// Harnesses marked FINDING fail on the unchanged tree and expose genuine defects (each reproduced
+// natively; see the comments at each of them):
+//   bl_asn_count_total, bl_as_der_count           asn_count overflows on the whole range 0-4294967295
+//   bl_as_der_lo_le_hi, bl_as_text_lo_le_hi,
+//   bl_ip_der_lo_le_hi, bl_ip_der_family_lo_le_hi  decoders / parsers accept ranges with min > max
 //@features ca,rtr,slurm
 
 //@append src/repository/resources/asres.rs
@@ -352,19 +357,9 @@ mod verif_block_leaves_ip {
         }
     }}
 
-    // FINDING (text form): "9.0.0.0-1.0.0.0" parses to an inverted range: AddressRange::from_str_sep
-    // (and from_v4_str_sep / from_v6_str_sep) do not check min <= max.
-    //@harness bl_ip_text_lo_le_hi Kb fn=AddressRange::from_str_sep,AddressRange::from_str bound="strings d.0.0.0-d.0.0.0 with one decimal digit each" timeout=900
-    verif_harness!{ #[kani::unwind(20)] bl_ip_text_lo_le_hi; |a: u8, b: u8| {
-        assume(a >= b'0' && a <= b'9' && b >= b'0' && b <= b'9');
-        let buf = [a, b'.', b'0', b'.', b'0', b'.', b'0', b'-', b, b'.', b'0', b'.', b'0', b'.', b'0'];
-        let s = core::str::from_utf8(&buf[..]).unwrap();
-        if let Ok(r) = AddressRange::from_str(s) {
-            assert!(val(r.min()) == ((a - b'0') as u128) << 120, "parsed lower bound");
-            assert!(val(r.max()) == (((b - b'0') as u128) << 120) | hostmask(32), "parsed upper bound (padded with ones)");
-            assert!(r.min() <= r.max(), "a parsed address range has min <= max");
-        }
-    }}
+    // Text form (AddressRange::from_str_sep / from_v4_str_sep / from_v6_str_sep): no harness — std's IpAddr::from_str
+    // on symbolic octets does not finish in CBMC (timeout in symbolic execution even for "9.0.0.0-d.0.0.0").  The same
+    // missing min <= max check is reproduced natively: "10.0.0.9-10.0.0.1" and "2001:db8::9-2001:db8::1" parse to inverted ranges.
 
     // ---------------- std facts assumed by the Verus unit range_prefixes --------------------
     fn is_tz128(x: u128, r: u32) -> bool {
